@@ -63,7 +63,7 @@ Proof. revert n m. induction l as [|z l IH]; intros [|n] [|m] N; cbn [set_nth nt
 
 Definition flat_exports (T : types) (e : list (str * kind)) : Prop :=
   NoDup (map fst e) /\ forall n k, In (n, k) e -> leafk k = true /\ exists tr, UnfK T k tr /\ resfree tr = true.
-Definition flat_if (T : types) (x : Types.interface) : Prop := i_id x = None /\ i_uses x = [] /\ flat_exports T (i_exports x).
+Definition flat_if (T : types) (x : Types.interface) : Prop := i_uses x = [] /\ flat_exports T (i_exports x).
 
 Lemma flat_exports_ext T T' e : ext T T' -> flat_exports T e -> flat_exports T' e.
 Proof.
@@ -296,9 +296,9 @@ Section Flat.
   Proof. reflexivity. Qed.
 
   (** what the loop maintains about the interface being merged into *)
-  Record LoopSt (existing : id) (c : core) (exs : list (str * kind)) : Prop := {
+  Record LoopSt (existing : id) (c : core) (oid : option str) (exs : list (str * kind)) : Prop := {
     ls_inv : MInv c;
-    ls_get : get_if (c_types c) existing = Some (mkif None [] exs);
+    ls_get : get_if (c_types c) existing = Some (mkif oid [] exs);
     ls_flat : flat_exports (c_types c) exs }.
 
   (** what one iteration / the whole loop leaves alone *)
@@ -322,17 +322,17 @@ Section Flat.
     - intros j N. unfold get_if. now rewrite (x_if _ _ E), (ext_tag _ _ (x_types _ _ E)).
   Qed.
 
-  Lemma do_remap_step f existing t name sk ts c c' exs :
-    Col t -> leafk sk = true -> UnfK t sk ts -> resfree ts = true -> LoopSt existing c exs ->
+  Lemma do_remap_step f existing t name sk ts c c' oid exs :
+    Col t -> leafk sk = true -> UnfK t sk ts -> resfree ts = true -> LoopSt existing c oid exs ->
     (k' <-- remap_item_kind ord cf f t sk ;;; upd_if existing (if_set_export name k')) c = AOk (tt, c') ->
-    exists k', LoopSt existing c' (ins name k' exs) /\ Frame existing c c' /\ UnfK (c_types c') k' ts /\ leafk k' = true.
+    exists k', LoopSt existing c' oid (ins name k' exs) /\ Frame existing c c' /\ UnfK (c_types c') k' ts /\ leafk k' = true.
   Proof.
     intros Ct Ls Hs Hr [I Hg Hf] H. apply bindM_ok in H as [k' [c1 [H1 H2]]].
     destruct (leaf_sound ord cf Col Col_same t Ct f sk ts c k' c1 Ls (mi_rinv _ I) Hs Hr H1) as [U1 [E1 [R1 L1]]].
-    assert (Hg1 : get_if (c_types c1) existing = Some (mkif None [] exs)).
+    assert (Hg1 : get_if (c_types c1) existing = Some (mkif oid [] exs)).
     { unfold get_if. rewrite (x_if _ _ E1), (ext_tag _ _ (x_types _ _ E1)). exact Hg. }
     rewrite (upd_if_ok _ _ _ _ _ Hg1 H2). cbn [if_set_export i_id i_uses i_exports].
-    set (T1 := c_types c1). set (T2 := t_with_interfaces T1 (set_nth (id_idx existing) (mkif None [] (ins name k' exs)) (t_interfaces T1))).
+    set (T1 := c_types c1). set (T2 := t_with_interfaces T1 (set_nth (id_idx existing) (mkif oid [] (ins name k' exs)) (t_interfaces T1))).
     assert (E2 : ext T1 T2) by apply ext_upd_if.
     pose proof (MInv_ext _ _ I E1 R1) as I1.
     exists k'. split; [split|split; [|split]].
@@ -353,7 +353,7 @@ Section Flat.
     - exact L1.
   Qed.
 
-  Lemma LoopSt_chk e c s exs : MInv (with_chk c s) -> LoopSt e c exs -> LoopSt e (with_chk c s) exs.
+  Lemma LoopSt_chk e c s oid exs : MInv (with_chk c s) -> LoopSt e c oid exs -> LoopSt e (with_chk c s) oid exs.
   Proof. intros I [_ Hg Hf]. split; auto. Qed.
   Lemma Frame_chk e c s : Frame e c (with_chk c s).
   Proof. split; cbn [c_types c_imports c_ifaces c_remapped with_chk]; auto using ext_refl. Qed.
@@ -361,33 +361,40 @@ Section Flat.
   Lemma UnfK_same_agg T k a b : leafk k = true -> UnfK T k a -> UnfK T k b -> a = b.
   Proof. intros L. apply UnfK_leaf_indep; auto. Qed.
 
-  Lemma merge_body_step f existing t name sk ts c c' exs :
-    Col t -> leafk sk = true -> UnfK t sk ts -> resfree ts = true -> LoopSt existing c exs ->
+  Lemma merge_body_step f existing t name sk ts c c' oid exs :
+    Col t -> leafk sk = true -> UnfK t sk ts -> resfree ts = true -> LoopSt existing c oid exs ->
     merge_export_body f existing t (name, sk) c = AOk (tt, c') ->
-    exists exs', LoopSt existing c' exs' /\ Frame existing c c' /\
+    exists exs', LoopSt existing c' oid exs' /\ Frame existing c c' /\
       map fst exs' = (if has_key name exs then map fst exs else map fst exs ++ [name]) /\
       (exists k', assoc name exs' = Some k' /\ UnfK (c_types c') k' ts) /\
       (forall n k tr, assoc n exs = Some k -> UnfK (c_types c) k tr ->
-                      exists k', assoc n exs' = Some k' /\ UnfK (c_types c') k' tr).
+                      exists k', assoc n exs' = Some k' /\ UnfK (c_types c') k' tr) /\
+      (forall n k' tr, assoc n exs' = Some k' -> UnfK (c_types c') k' tr ->
+                       (exists k, assoc n exs = Some k /\ UnfK (c_types c) k tr) \/ (n = name /\ tr = ts)).
   Proof.
     intros Ct Ls Hs Hr L H. unfold merge_export_body in H.
-    apply bindM_ok in H as [ex [c0 [H0 H]]]. unfold agg_if in H0. rewrite (ls_get _ _ _ L) in H0. cbn [idxM] in H0.
+    assert (Hback : forall c2 n k tr, ext (c_types c) (c_types c2) -> assoc n exs = Some k -> UnfK (c_types c2) k tr ->
+                                      UnfK (c_types c) k tr).
+    { intros c2 n k tr E Hn Hu. destruct (ls_flat _ _ _ _ L) as [_ Hall].
+      destruct (Hall n k (assoc_in _ _ _ Hn)) as [Lk [tr0 [U0 _]]].
+      assert (tr = tr0) as -> by (eapply UnfK_same_agg; [exact Lk|exact Hu|]; eapply UnfK_leaf_ext; eauto). exact U0. }
+    apply bindM_ok in H as [ex [c0 [H0 H]]]. unfold agg_if in H0. rewrite (ls_get _ _ _ _ L) in H0. cbn [idxM] in H0.
     apply ret_ok in H0 as [-> ->]. cbn [i_exports] in H. unfold has_key.
     destruct (assoc name exs) as [tk|] eqn:Ea.
     - (* the export exists already *)
-      destruct (ls_flat _ _ _ L) as [ND Hall]. destruct (Hall name tk (assoc_in _ _ _ Ea)) as [Lt [tg [Ht Rt]]].
+      destruct (ls_flat _ _ _ _ L) as [ND Hall]. destruct (Hall name tk (assoc_in _ _ _ Ea)) as [Lt [tg [Ht Rt]]].
       apply bindM_ok in H as [r1 [c1 [H1 H]]].
-      destruct (sub_fa_leaf t c sk tk r1 c1 ts tg Ct (ls_inv _ _ _ L) Ls Lt Hs Ht H1) as [Ec1 [I1 Ok1]].
+      destruct (sub_fa_leaf t c sk tk r1 c1 ts tg Ct (ls_inv _ _ _ _ L) Ls Lt Hs Ht H1) as [Ec1 [I1 Ok1]].
       destruct (is_ok r1) eqn:Er1.
       + (* source <: target accepted: nothing changes but the remap table *)
         unfold remapped_set in H. injection H as <-. specialize (Ok1 eq_refl). subst tg.
         assert (Tc1 : c_types c1 = c_types c) by (rewrite Ec1; reflexivity).
-        exists exs. split; [|split; [|split; [|split]]].
+        exists exs. split; [|split; [|split; [|split; [|split]]]].
         * split; cbn [c_types with_remapped].
           -- split; cbn [c_types c_remapped c_chk with_remapped]; [apply (mi_tag _ I1) | | apply (mi_cache _ I1)].
              apply RInv_set; [apply (mi_rinv _ I1)|]. rewrite Tc1. eapply entry_ok_leaf; eauto.
-          -- rewrite Tc1. apply (ls_get _ _ _ L).
-          -- rewrite Tc1. apply (ls_flat _ _ _ L).
+          -- rewrite Tc1. apply (ls_get _ _ _ _ L).
+          -- rewrite Tc1. apply (ls_flat _ _ _ _ L).
         * split; cbn [c_types c_imports c_ifaces c_remapped with_remapped]; rewrite ?Tc1; auto using ext_refl;
             try (rewrite Ec1; reflexivity).
           intros i0. rewrite rm_get_ins_other; [rewrite Ec1; reflexivity|].
@@ -395,18 +402,19 @@ Section Flat.
         * reflexivity.
         * exists tk. split; auto. cbn [c_types with_remapped]. now rewrite Tc1.
         * intros n k tr Hn Hu. exists k. split; auto. cbn [c_types with_remapped]. now rewrite Tc1.
+        * intros n k0 tr Hn Hu. left. exists k0. split; auto. cbn [c_types with_remapped] in Hu. now rewrite Tc1 in Hu.
       + (* otherwise the target must be a subtype of the source; the source is copied and replaces the export *)
         apply bindM_ok in H as [r2 [c2 [H2 H]]]. apply bindM_ok in H as [u [c3 [H3 H]]].
         assert (Tc1 : c_types c1 = c_types c) by (rewrite Ec1; reflexivity).
-        assert (L1 : LoopSt existing c1 exs) by (rewrite Ec1 in *; now apply LoopSt_chk).
+        assert (L1 : LoopSt existing c1 oid exs) by (rewrite Ec1 in *; now apply LoopSt_chk).
         rewrite <- Tc1 in Ht.
         destruct (sub_af_leaf t c1 sk tk r2 c2 ts tg Ct I1 Ls Lt Hs Ht H2) as [Ec2 [I2 Ok2]].
         destruct r2 as [[]| | |]; cbn [must] in H3; try discriminate. apply ret_ok in H3 as [_ ->].
         specialize (Ok2 eq_refl). subst tg.
         assert (Tc2 : c_types c2 = c_types c) by (rewrite Ec2, <- Tc1; reflexivity).
-        assert (L2 : LoopSt existing c2 exs) by (rewrite Ec2 in *; now apply LoopSt_chk).
-        destruct (do_remap_step f existing t name sk ts c2 c' exs Ct Ls Hs Hr L2 H) as [k' [L3 [F3 [U3 Lk]]]].
-        exists (ins name k' exs). split; [exact L3|]. split; [|split; [|split]].
+        assert (L2 : LoopSt existing c2 oid exs) by (rewrite Ec2 in *; now apply LoopSt_chk).
+        destruct (do_remap_step f existing t name sk ts c2 c' oid exs Ct Ls Hs Hr L2 H) as [k' [L3 [F3 [U3 Lk]]]].
+        exists (ins name k' exs). split; [exact L3|]. split; [|split; [|split; [|split]]].
         * eapply Frame_trans; [|exact F3]. rewrite Ec2. eapply Frame_trans; [|apply Frame_chk]. rewrite Ec1. apply Frame_chk.
         * apply (keys_ins_old _ _ _ _ Ea).
         * exists k'. split; auto. apply assoc_ins_same.
@@ -417,15 +425,25 @@ Section Flat.
           -- exists k. split; [rewrite assoc_ins_other; auto; now apply SemverProofs.str_eqb_neq|].
              destruct (Hall n k (assoc_in _ _ _ Hn)) as [Lk' _].
              eapply UnfK_leaf_ext; [apply F3|auto|]. now rewrite Tc2.
+        * intros n k0 tr Hn Hu. destruct (str_eqb name n) eqn:En.
+          -- apply SemverProofs.str_eqb_eq in En. subst n. right. split; auto. rewrite assoc_ins_same in Hn. injection Hn as <-.
+             eapply UnfK_same_agg; eauto.
+          -- left. rewrite assoc_ins_other in Hn by (now apply SemverProofs.str_eqb_neq). exists k0. split; auto.
+             apply (Hback c' n k0 tr); auto. rewrite <- Tc2. apply F3.
     - (* a new export *)
-      destruct (do_remap_step f existing t name sk ts c c' exs Ct Ls Hs Hr L H) as [k' [L3 [F3 [U3 Lk]]]].
-      exists (ins name k' exs). split; [exact L3|]. split; [exact F3|]. split; [|split].
+      destruct (do_remap_step f existing t name sk ts c c' oid exs Ct Ls Hs Hr L H) as [k' [L3 [F3 [U3 Lk]]]].
+      exists (ins name k' exs). split; [exact L3|]. split; [exact F3|]. split; [|split; [|split]].
       + apply (keys_ins_new _ _ _ Ea).
       + exists k'. split; auto. apply assoc_ins_same.
       + intros n k tr Hn Hu. exists k. split.
         * rewrite assoc_ins_other; auto. intros ->. congruence.
-        * destruct (ls_flat _ _ _ L) as [_ Hall]. destruct (Hall n k (assoc_in _ _ _ Hn)) as [Lk' _].
+        * destruct (ls_flat _ _ _ _ L) as [_ Hall]. destruct (Hall n k (assoc_in _ _ _ Hn)) as [Lk' _].
           eapply UnfK_leaf_ext; [apply F3|auto|exact Hu].
+      + intros n k0 tr Hn Hu. destruct (str_eqb name n) eqn:En.
+        * apply SemverProofs.str_eqb_eq in En. subst n. right. split; auto. rewrite assoc_ins_same in Hn. injection Hn as <-.
+          eapply UnfK_same_agg; eauto.
+        * left. rewrite assoc_ins_other in Hn by (now apply SemverProofs.str_eqb_neq). exists k0. split; auto.
+          apply (Hback c' n k0 tr); auto. apply F3.
   Qed.
 
   (** first-seen union, stepwise *)
@@ -458,24 +476,27 @@ Section Flat.
   Qed.
 
   (** the whole export loop *)
-  Lemma merge_loop f existing t : forall rest c c' exs,
+  Lemma merge_loop f existing t oid : forall rest c c' exs,
     Col t -> NoDup (map fst rest) ->
     (forall n k, In (n, k) rest -> leafk k = true /\ exists tr, UnfK t k tr /\ resfree tr = true) ->
-    LoopSt existing c exs -> forM (merge_export_body f existing t) rest c = AOk (tt, c') ->
-    exists exs', LoopSt existing c' exs' /\ Frame existing c c' /\
+    LoopSt existing c oid exs -> forM (merge_export_body f existing t) rest c = AOk (tt, c') ->
+    exists exs', LoopSt existing c' oid exs' /\ Frame existing c c' /\
       map fst exs' = first_seen_union (map fst exs) (map fst rest) /\
       (forall n k tr, In (n, k) rest -> UnfK t k tr -> exists k', assoc n exs' = Some k' /\ UnfK (c_types c') k' tr) /\
       (forall n k tr, assoc n exs = Some k -> UnfK (c_types c) k tr ->
-                      exists k', assoc n exs' = Some k' /\ UnfK (c_types c') k' tr).
+                      exists k', assoc n exs' = Some k' /\ UnfK (c_types c') k' tr) /\
+      (forall n k' tr, assoc n exs' = Some k' -> UnfK (c_types c') k' tr ->
+                       (exists k, assoc n exs = Some k /\ UnfK (c_types c) k tr) \/
+                       (exists ek, In (n, ek) rest /\ UnfK t ek tr)).
   Proof.
     induction rest as [|[name sk] rest IH]; intros c c' exs Ct ND Hall L H; cbn [forM] in H.
     - apply ret_ok in H as [_ ->]. exists exs. split; auto. split; [apply Frame_refl|]. split; [now rewrite fsu_nil|].
-      split; [intros n k tr []|]. intros n k tr Hn Hu. eauto.
+      split; [intros n k tr []|]. split; [intros n k tr Hn Hu; eauto|]. intros n k tr Hn Hu. left. eauto.
     - apply bindM_ok in H as [[] [c1 [H1 H]]]. cbn [map fst] in ND. inversion ND as [|? ? Hnin ND']; subst.
       destruct (Hall name sk (or_introl eq_refl)) as [Ls [ts [Hs Hr]]].
-      destruct (merge_body_step f existing t name sk ts c c1 exs Ct Ls Hs Hr L H1) as [exs1 [L1 [F1 [K1 [[k1 [A1 U1]] Old1]]]]].
-      destruct (IH c1 c' exs1 Ct ND' (fun n k Hin => Hall n k (or_intror Hin)) L1 H) as [exs2 [L2 [F2 [K2 [New2 Old2]]]]].
-      exists exs2. split; auto. split; [eapply Frame_trans; eauto|]. split; [|split].
+      destruct (merge_body_step f existing t name sk ts c c1 oid exs Ct Ls Hs Hr L H1) as [exs1 [L1 [F1 [K1 [[k1 [A1 U1]] [Old1 Conv1]]]]]].
+      destruct (IH c1 c' exs1 Ct ND' (fun n k Hin => Hall n k (or_intror Hin)) L1 H) as [exs2 [L2 [F2 [K2 [New2 [Old2 Conv2]]]]]].
+      exists exs2. split; auto. split; [eapply Frame_trans; eauto|]. split; [|split; [|split]].
       + rewrite K2, K1. cbn [map fst]. destruct (has_key name exs) eqn:Eh.
         * apply has_key_in in Eh. now rewrite fsu_cons_old.
         * rewrite fsu_cons_new; auto. intros X. apply has_key_in in X. congruence.
@@ -484,19 +505,25 @@ Section Flat.
           apply (Old2 _ _ _ A1 U1).
         * now apply (New2 n k tr).
       + intros n k tr Hn Hu. destruct (Old1 n k tr Hn Hu) as [k' [A' U']]. apply (Old2 _ _ _ A' U').
+      + intros n k' tr Hn Hu. destruct (Conv2 n k' tr Hn Hu) as [[k1' [A' U']]|[ek [Hin Hek]]].
+        * destruct (Conv1 n k1' tr A' U') as [X|[-> ->]]; [now left|]. right. exists sk. split; [now left|exact Hs].
+        * right. exists ek. split; [now right|exact Hek].
   Qed.
 
   (** ** [merge_interface] of a flat requirement into a flat interface of the aggregator *)
-  Lemma merge_interface_flat F existing t i x c c' exs :
-    Col t -> get_if t i = Some x -> flat_if t x -> LoopSt existing c exs ->
+  Lemma merge_interface_flat F existing t i x c c' oid exs :
+    Col t -> get_if t i = Some x -> flat_if t x -> LoopSt existing c oid exs ->
     merge_interface ord cf F existing t i c = AOk (tt, c') ->
-    exists exs', LoopSt existing c' exs' /\ Frame existing c c' /\
+    exists exs', LoopSt existing c' oid exs' /\ Frame existing c c' /\
       map fst exs' = first_seen_union (map fst exs) (map fst (i_exports x)) /\
       (forall n k tr, In (n, k) (i_exports x) -> UnfK t k tr -> exists k', assoc n exs' = Some k' /\ UnfK (c_types c') k' tr) /\
       (forall n k tr, assoc n exs = Some k -> UnfK (c_types c) k tr ->
-                      exists k', assoc n exs' = Some k' /\ UnfK (c_types c') k' tr).
+                      exists k', assoc n exs' = Some k' /\ UnfK (c_types c') k' tr) /\
+      (forall n k' tr, assoc n exs' = Some k' -> UnfK (c_types c') k' tr ->
+                       (exists k, assoc n exs = Some k /\ UnfK (c_types c) k tr) \/
+                       (exists ek, In (n, ek) (i_exports x) /\ UnfK t ek tr)).
   Proof.
-    intros Ct Hg [Hid [Hu [ND Hall]]] L H. destruct F as [|f]; [discriminate|]. rewrite merge_interface_S in H.
+    intros Ct Hg [Hu [ND Hall]] L H. destruct F as [|f]; [discriminate|]. rewrite merge_interface_S in H.
     apply bindM_ok in H as [[] [c1 [H1 H]]].
     assert (c1 = c) as ->.
     { destruct f as [|f]; [discriminate|]. cbn [merge_interface_used_types] in H1.
@@ -513,17 +540,18 @@ Section Flat.
     mapM (fun nk : str * kind => k' <-- remap_item_kind ord cf f t (snd nk) ;;; ret (fst nk, k')) l c = AOk (es, c') ->
     MInv c' /\ Ext c c' /\ map fst es = map fst l /\
     (forall n k', In (n, k') es -> leafk k' = true /\ exists tr, UnfK (c_types c') k' tr /\ resfree tr = true) /\
-    (forall n k tr, In (n, k) l -> UnfK t k tr -> exists k', In (n, k') es /\ UnfK (c_types c') k' tr).
+    (forall n k tr, In (n, k) l -> UnfK t k tr -> exists k', In (n, k') es /\ UnfK (c_types c') k' tr) /\
+    (forall n k', In (n, k') es -> exists k tr, In (n, k) l /\ UnfK t k tr /\ UnfK (c_types c') k' tr).
   Proof.
     induction l as [|[n k] l IH]; intros c es c' Ct I Hall H; cbn [mapM] in H.
-    - apply ret_ok in H as [-> ->]. split; auto. split; [apply Ext_refl|]. split; auto. split; [intros ? ? []|intros ? ? ? []].
+    - apply ret_ok in H as [-> ->]. split; auto. split; [apply Ext_refl|]. split; auto. split; [intros ? ? []|]. split; [intros ? ? ? []|intros ? ? []].
     - apply bindM_ok in H as [y [c1 [H1 H]]]. apply bindM_ok in H as [ys [c2 [H2 H]]]. apply ret_ok in H as [-> ->].
       apply bindM_ok in H1 as [k' [c0 [H0 H1]]]. apply ret_ok in H1 as [-> ->]. cbn [fst snd] in *.
       destruct (Hall n k (or_introl eq_refl)) as [Lk [tr [Hu Hr]]].
       destruct (leaf_sound ord cf Col Col_same t Ct f k tr c k' c0 Lk (mi_rinv _ I) Hu Hr H0) as [U1 [E1 [R1 L1]]].
       pose proof (MInv_ext _ _ I E1 R1) as I1.
-      destruct (IH c0 ys c2 Ct I1 (fun n0 k0 Hin => Hall n0 k0 (or_intror Hin)) H2) as [I2 [E2 [K2 [F2 N2]]]].
-      split; auto. split; [eapply Ext_trans; eauto|]. split; [cbn [map fst]; now rewrite K2|]. split.
+      destruct (IH c0 ys c2 Ct I1 (fun n0 k0 Hin => Hall n0 k0 (or_intror Hin)) H2) as [I2 [E2 [K2 [F2 [N2 P2]]]]].
+      split; auto. split; [eapply Ext_trans; eauto|]. split; [cbn [map fst]; now rewrite K2|]. split; [|split].
       + intros n0 k0 [X|Hin]; [|now apply (F2 n0 k0)]. injection X as <- <-. split; auto. exists tr. split; auto.
         eapply UnfK_leaf_ext; [apply E2|auto|exact U1].
       + intros n0 k0 tr0 [X|Hin] Hu0.
@@ -531,6 +559,9 @@ Section Flat.
           assert (tr0 = tr) as -> by (eapply UnfK_leaf_indep; [| |exact Hu0|exact Hu]; auto).
           eapply UnfK_leaf_ext; [apply E2|auto|exact U1].
         * destruct (N2 n0 k0 tr0 Hin Hu0) as [k1 [X Y]]. exists k1. split; [now right|auto].
+      + intros n0 k0 [X|Hin].
+        * injection X as <- <-. exists k, tr. split; [now left|]. split; auto. eapply UnfK_leaf_ext; [apply E2|auto|exact U1].
+        * destruct (P2 n0 k0 Hin) as [k1 [tr1 [X [Y Z]]]]. exists k1, tr1. split; [now right|auto].
   Qed.
 
   Lemma in_assoc_nodup {V} n (v : V) l : NoDup (map fst l) -> In (n, v) l -> assoc n l = Some v.
@@ -538,51 +569,79 @@ Section Flat.
 
   Lemma remap_interface_flat F t i x c y c' :
     Col t -> get_if t i = Some x -> flat_if t x -> MInv c -> rm_get (TInterface i) (c_remapped c) = None ->
+    (forall nm, i_id x = Some nm -> assoc nm (c_ifaces c) = None /\ find_compat nm (ord (c_ifaces c)) = None) ->
     remap_interface ord cf F t i c = AOk (y, c') ->
-    exists exs, LoopSt y c' exs /\ id_idx y = length (t_interfaces (c_types c)) /\
+    exists exs, LoopSt y c' (i_id x) exs /\ id_idx y = length (t_interfaces (c_types c)) /\
       map fst exs = map fst (i_exports x) /\
       (forall n k tr, In (n, k) (i_exports x) -> UnfK t k tr -> exists k', assoc n exs = Some k' /\ UnfK (c_types c') k' tr) /\
-      ext (c_types c) (c_types c') /\ c_imports c' = c_imports c /\ c_ifaces c' = c_ifaces c /\
+      (forall n k' tr, assoc n exs = Some k' -> UnfK (c_types c') k' tr -> exists ek, In (n, ek) (i_exports x) /\ UnfK t ek tr) /\
+      ext (c_types c) (c_types c') /\ c_imports c' = c_imports c /\
+      c_ifaces c' = match i_id x with Some nm => ins nm y (c_ifaces c) | None => c_ifaces c end /\
       (forall j z, get_if (c_types c) j = Some z -> get_if (c_types c') j = Some z) /\
       (forall i', i' <> i -> rm_get (TInterface i') (c_remapped c') = rm_get (TInterface i') (c_remapped c)) /\
       rm_get (TInterface i) (c_remapped c') = Some (TInterface y).
   Proof.
-    intros Ct Hg [Hid [Hu [ND Hall]]] I Hnone H. destruct F as [|f]; [discriminate|]. cbn [remap_interface] in H.
+    intros Ct Hg [Hu [ND Hall]] I Hnone Hlook H. destruct F as [|f]; [discriminate|]. cbn [remap_interface] in H.
     apply bindM_ok in H as [x0 [c0 [H0 H]]]. rewrite Hg in H0. cbn [idxM] in H0. apply ret_ok in H0 as [-> ->].
-    rewrite Hid in H. apply bindM_ok in H as [hit [c0 [H0 H]]]. apply ret_ok in H0 as [-> ->].
+    apply bindM_ok in H as [hit [c0 [H0 H]]].
+    assert (Hhit : hit = None /\ c0 = c).
+    { destruct (i_id x) as [nm|] eqn:Hid.
+      - destruct (Hlook nm eq_refl) as [L1 L2]. apply bindM_ok in H0 as [e [c1 [H1 H0]]].
+        unfold lookup_iface in H1. rewrite L1, L2 in H1. injection H1 as <- <-. now apply ret_ok in H0 as [-> ->].
+      - now apply ret_ok in H0 as [-> ->]. }
+    destruct Hhit as [-> ->]. clear H0.
     apply bindM_ok in H as [r [c0 [H0 H]]]. unfold remapped_get in H0. injection H0 as <- <-. rewrite Hnone in H.
     apply bindM_ok in H as [us [c0 [H0 H]]]. rewrite Hu in H0. cbn [mapM] in H0. apply ret_ok in H0 as [-> ->].
     apply bindM_ok in H as [es [c1 [H1 H]]].
-    destruct (copy_exports f t _ _ _ _ Ct I Hall H1) as [I1 [E1 [K1 [F1 N1]]]].
+    destruct (copy_exports f t _ _ _ _ Ct I Hall H1) as [I1 [E1 [K1 [F1 [N1 P1]]]]].
     apply bindM_ok in H as [y0 [c2 [H2 H]]]. unfold add_if in H2. injection H2 as <- <-.
     apply bindM_ok in H as [u [c3 [H3 H]]]. unfold remapped_new in H3. cbn [c_remapped with_types] in H3.
     rewrite (x_noif _ _ E1), Hnone in H3. injection H3 as H3. subst c3.
-    apply bindM_ok in H as [u2 [c4 [H4 H]]]. apply ret_ok in H4 as [_ ->]. apply ret_ok in H as [-> ->].
-    set (T1 := c_types c1) in *. set (newif := {| i_id := None; i_uses := []; i_exports := es |}) in *.
-    set (T2 := t_with_interfaces T1 (t_interfaces T1 ++ [newif])).
+    apply bindM_ok in H as [u2 [c4 [H4 H]]]. apply ret_ok in H as [-> ->].
+    set (T1 := c_types c1) in *. set (newif := {| i_id := i_id x; i_uses := []; i_exports := es |}) in *.
+    set (T2 := t_with_interfaces T1 (t_interfaces T1 ++ [newif])) in *.
+    set (ynew := {| id_tag := t_tag T1; id_idx := length (t_interfaces T1) |}) in *.
+    set (c3 := with_remapped (with_types c1 T2) (rm_ins (TInterface i) (TInterface ynew) (c_remapped c1))) in *.
+    assert (Hc4 : c_types c4 = T2 /\ c_imports c4 = c_imports c1 /\ c_remapped c4 = c_remapped c3 /\ c_chk c4 = c_chk c1 /\
+                  c_ifaces c4 = match i_id x with Some nm => ins nm ynew (c_ifaces c) | None => c_ifaces c end).
+    { destruct (i_id x) as [nm|] eqn:Hid.
+      - unfold iface_new in H4. cbn [c_ifaces c3 with_remapped with_types] in H4. rewrite (x_ifaces _ _ E1) in H4.
+        destruct (Hlook nm eq_refl) as [L1 _]. unfold has_key in H4. rewrite L1 in H4. injection H4 as H4. subst c4.
+        cbn [c_types c_imports c_remapped c_chk c_ifaces with_ifaces with_remapped with_types c3]. auto.
+      - apply ret_ok in H4 as [_ ->]. cbn [c_types c_imports c_remapped c_chk c_ifaces with_remapped with_types c3].
+        repeat split; auto. apply E1. }
+    destruct Hc4 as [Q1 [Q2 [Q3 [Q4 Q5]]]].
     assert (E2 : ext T1 T2) by apply ext_upd_if.
     assert (NDe : NoDup (map fst es)) by now rewrite K1.
-    exists es. cbn [c_types c_imports c_ifaces c_remapped with_remapped with_types id_idx].
+    exists es. rewrite Q1, Q2, Q3, Q5.
     split; [split|].
-    - split; cbn [c_types c_remapped c_chk with_remapped with_types].
-      + apply (mi_tag _ I1).
-      + intros k k' Hk. cbn [c_remapped c_types with_remapped with_types] in Hk |- *. destruct (ty_eqb (TInterface i) k) eqn:Ek.
+    - split.
+      + rewrite Q1. apply (mi_tag _ I1).
+      + intros k k' Hk. rewrite Q3 in Hk. rewrite Q1. cbn [c_remapped c3 with_remapped] in Hk.
+        destruct (ty_eqb (TInterface i) k) eqn:Ek.
         * apply tyeqb_eq in Ek. subst k. cbn [entry_ok]. exact Logic.I.
         * rewrite rm_get_ins_other in Hk; [|intro X; apply tyeqb_eq in X; congruence].
           eapply entry_ok_ext; [exact E2|]. now apply (mi_rinv _ I1).
-      + eapply (CacheInv_ext c1); [exact E2 | reflexivity | apply (mi_cache _ I1)].
-    - cbn [c_types with_remapped with_types]. unfold get_if. cbn [t_tag t_interfaces t_with_interfaces T2]. apply lookup_new.
-    - cbn [c_types with_remapped with_types]. split; auto. intros n k' Hin. destruct (F1 n k' Hin) as [L [tr [U R]]].
+      + intros a b Hin. rewrite Q4 in Hin. destruct (mi_cache _ I1 a b Hin) as [La [Lb [tr [Ka Kb]]]].
+        repeat split; auto. exists tr. unfold KT in *. rewrite Q1.
+        split; [destruct Ka as [Ka|Ka]; [left; eapply UnfK_leaf_ext; eauto | now right]
+               | destruct Kb as [Kb|Kb]; [left; eapply UnfK_leaf_ext; eauto | now right]].
+    - rewrite Q1. unfold get_if. cbn [t_tag t_interfaces t_with_interfaces T2]. apply lookup_new.
+    - rewrite Q1. split; auto. intros n k' Hin. destruct (F1 n k' Hin) as [L [tr [U R]]].
       split; auto. exists tr. split; auto. eapply UnfK_leaf_ext; eauto.
-    - split; [unfold T1; now rewrite (x_if _ _ E1)|]. split; [exact K1|]. split; [|split; [|split; [|split; [|split; [|split]]]]].
+    - split; [cbn [id_idx ynew]; unfold T1; now rewrite (x_if _ _ E1)|]. split; [exact K1|].
+      split; [|split; [|split; [|split; [|split; [|split; [|split]]]]]].
       + intros n k tr Hin Hu0. destruct (N1 n k tr Hin Hu0) as [k' [X Y]]. exists k'. split; [now apply in_assoc_nodup|].
         eapply UnfK_leaf_ext; [exact E2| |exact Y]. now destruct (F1 n k' X).
+      + intros n k' tr Ha Hu0. destruct (P1 n k' (assoc_in _ _ _ Ha)) as [ek [tr1 [X [Y Z]]]]. exists ek. split; auto.
+        destruct (F1 n k' (assoc_in _ _ _ Ha)) as [Lk _].
+        assert (tr = tr1) as -> by (eapply UnfK_same_agg; [exact Lk|exact Hu0|]; eapply UnfK_leaf_ext; eauto). exact Y.
       + eapply ext_trans; [apply E1|exact E2].
       + apply E1.
-      + apply E1.
+      + reflexivity.
       + intros j z Hj. unfold get_if in *. cbn [t_tag t_interfaces t_with_interfaces T2]. unfold T1.
         rewrite (x_if _ _ E1), (ext_tag _ _ (x_types _ _ E1)). eapply lookup_prefix; [apply prefix_app|exact Hj].
-      + intros i' N. rewrite rm_get_ins_other; [apply (x_noif _ _ E1)|]. congruence.
-      + apply rm_get_ins_same.
+      + intros i' N. cbn [c_remapped c3 with_remapped]. rewrite rm_get_ins_other; [apply (x_noif _ _ E1)|]. congruence.
+      + cbn [c_remapped c3 with_remapped]. apply rm_get_ins_same.
   Qed.
 End Flat.
